@@ -302,7 +302,7 @@ func c39Scenarios(thorough bool) []scenario {
 	for i := 0; i < 13; i++ {
 		many = append(many, big(fmt.Sprintf("big%02d.go", i), archiveFileCap))
 	}
-	bomb := int64(256 * mib)
+	bomb := int64(512 * mib)
 	if thorough {
 		bomb = 4096 * mib
 	}
@@ -558,6 +558,8 @@ func runChild(task childTask, timeout time.Duration) (rep childReport, crashed b
 	if err := cmd.Start(); err != nil {
 		panic(err)
 	}
+	// the child's own scratch directory, in case it dies before removing it
+	defer os.RemoveAll(filepath.Join(filepath.Dir(lib.ScratchDir()), fmt.Sprintf("verif-%d", cmd.Process.Pid)))
 	done := make(chan error, 1)
 	go func() { done <- cmd.Wait() }()
 	select {
